@@ -155,10 +155,21 @@ Definition judge (cs : case) : N :=
       let m_vkey := match doc_hmac w with HmacOn s => negb (str_eqb s vkey) | _ => false end in
       let holds := holds_rsa c recv impl_rsa v_rsa v_kid && holds_hmac w recv impl_hmac v_hmac &&
                    holds_body sent_body recv in
+      (* Attribution. The monitor has three clauses; a falsified body clause is explained by no finding.
+         A falsified RSA / HMAC clause is explained by K1 when a Connection token EFFECTIVELY names a
+         header that exists when the request is signed (a covered header with a value, or a signature
+         header the proxy sets), and by K2 when the Content-Length line is not the transport's. A request
+         may show both; the smallest explaining code is reported (and [code] only uses it when the model
+         predicts exactly the observation, whose verdicts then fail for these reasons only). *)
+      let named (k : str) := mem_str k (hop_keys (r_headers rs)) in
+      let model_hmac_on := signing_on c && match c_hmac c with Some _ => true | None => false end in
+      let k1 := existsb (fun k => named k && has_header k (r_headers rs)) documented_covered ||
+                (rsa_on && (named sso_signature || named kid_h)) ||
+                (model_hmac_on && named gap_signature) in
+      let k2 := negb (cl_canonical rs) in
       let known : N :=
-        if negb (conn_safe protected (r_headers rs)) then 1
-        else if negb (cl_canonical rs) then 2
-        else 0 in
+        if negb (holds_body sent_body recv) then 0
+        else if k1 then 1 else if k2 then 2 else 0 in
       code (m_proj || m_canon || m_rsa || m_hmac || m_body || m_vkey) holds known
   end.
 
